@@ -518,11 +518,18 @@ type prefixedReporter struct {
 	scen string
 }
 
+// a signature that starts with '@' names a class that does not depend on the scenario it was met in
+func (p prefixedReporter) full(sig string) string {
+	if strings.HasPrefix(sig, "@") {
+		return strings.ToLower(p.prop) + "|" + sig[1:]
+	}
+	return strings.ToLower(p.prop) + "|" + p.scen + "|" + sig
+}
 func (p prefixedReporter) Report(sig, msg string, cas any) bool {
-	return p.r.Report(strings.ToLower(p.prop)+"|"+p.scen+"|"+sig, msg, cas)
+	return p.r.Report(p.full(sig), msg, cas)
 }
 func (p prefixedReporter) IsKnown(sig string) bool {
-	return p.r.IsKnown(strings.ToLower(p.prop) + "|" + p.scen + "|" + sig)
+	return p.r.IsKnown(p.full(sig))
 }
 func (p prefixedReporter) OutOfTime() bool { return p.r.OutOfTime() }
 
